@@ -71,3 +71,126 @@ def gen_stream_plan(rng, sc, nsrc=None, maxlen=120, kind='user', density=None, k
         for _ in range(n - 1):
             it.wraps.append(Op('SET_YYIN'))
     return p
+
+
+def top_mix(rng, sc, it, segments=None, kinds=None):
+    """several LEX ops interleaved with top-level API calls (RETURN ops inside
+    actions make yylex come back early)"""
+    kinds = kinds or ['BEGIN', 'PUSH_STATE', 'POP_STATE', 'TOP_STATE', 'GET_LINENO', 'SET_LINENO', 'SETBOL', 'GET_STATE']
+    kinds = [k for k in kinds if not (k in ('PUSH_STATE', 'POP_STATE', 'TOP_STATE') and not sc.stack)]
+    n = segments if segments is not None else rng.randint(1, 5)
+    for _ in range(n):
+        it.top.append(Op('LEX', a=rng.choice([1, 1, 2, 3, 7, 50])))
+        for _ in range(rng.randint(0, 3)):
+            k = rng.choice(kinds)
+            if k in ('BEGIN', 'PUSH_STATE'):
+                it.top.append(Op(k, a=rng.randint(0, 7)))
+            elif k == 'SET_LINENO':
+                it.top.append(Op(k, a=rng.choice([0, 1, 7, 100, 99999])))
+            elif k == 'SETBOL':
+                it.top.append(Op(k, a=rng.randint(0, 1)))
+            else:
+                it.top.append(Op(k))
+    it.top.append(Op('LEX', a=5000))
+
+
+def gen_lineno_plan(rng, sc):
+    p = gen_stream_plan(rng, sc, density=rng.choice([0.1, 0.3, 0.6]),
+                        kinds=['LESS', 'UNPUT', 'INPUT', 'MORE', 'REJECT', 'RETURN', 'LESS', 'UNPUT', 'INPUT', 'BEGIN'])
+    it = p.insts[0]
+    # newline-heavy push-back
+    it.acts = [(o, Op('UNPUT', a=NL) if (op.name == 'UNPUT' and rng.random() < 0.5) else op) for o, op in it.acts]
+    it.top = [op for op in it.top if op.name not in ('LEX', 'DESTROY')]
+    top_mix(rng, sc, it, kinds=['GET_LINENO', 'SET_LINENO', 'BEGIN', 'GET_LINENO'])
+    if sc.flavor != 'nr' and rng.random() < 0.5:
+        # per-buffer counters: nested buffers from inside actions
+        for o in sorted(rng.sample(range(40), rng.randint(1, 4))):
+            it.acts.append((o, Op(rng.choice(['PUSHNEW', 'POP_BUF', 'SWITCHNEW']), a=rng.choice([1, 3, 16, 200]))))
+        it.acts.sort(key=lambda x: x[0])
+        for _ in range(3):
+            p.sources.append(Source(gen_input(rng, sc.alphabet, rng.randint(1, 30)), gen_sched(rng)))
+    it.top.append(Op('DESTROY'))
+    return p
+
+
+def gen_state_plan(rng, sc):
+    """start-condition histories: begin/push/pop/top from actions and between calls"""
+    p = gen_stream_plan(rng, sc, density=0.0)
+    it = p.insts[0]
+    acts = []
+    deep = rng.random() < 0.25
+    for o in range(90):
+        r = rng.random()
+        if r < 0.45:
+            continue
+        for _ in range(rng.choice([1, 1, 2, 3])):
+            k = rng.choice(['BEGIN', 'PUSH_STATE', 'PUSH_STATE', 'POP_STATE', 'TOP_STATE', 'GET_STATE', 'RETURN'])
+            if k in ('BEGIN', 'PUSH_STATE'):
+                acts.append((o, Op(k, a=rng.randint(0, 7))))
+            elif k == 'RETURN':
+                acts.append((o, Op(k, a=rng.randint(0, 3))))
+            else:
+                acts.append((o, Op(k)))
+        if deep and rng.random() < 0.3:
+            for _ in range(rng.choice([26, 30, 51, 60])):
+                acts.append((o, Op('PUSH_STATE', a=rng.randint(0, 7))))
+    it.acts = acts
+    it.top = [op for op in it.top if op.name not in ('LEX', 'DESTROY')]
+    top_mix(rng, sc, it, kinds=['BEGIN', 'PUSH_STATE', 'POP_STATE', 'TOP_STATE', 'GET_STATE', 'RESTART', 'SWITCHNEW', 'FLUSH'])
+    if rng.random() < 0.5:
+        it.top.append(Op('SET_YYIN'))
+        it.top.append(Op('LEX', a=5000))
+    it.top.append(Op('DESTROY'))
+    # EOF actions may change the condition too
+    return p
+
+
+def gen_eof_plan(rng, sc):
+    """chains of sources, EOF indications at arbitrary instants, yywrap
+    policies, <<EOF>> action scripts, calls after termination"""
+    p = Plan()
+    p.junk_seed = rng.randint(1, 1 << 30)
+    p.junk_pat = rng.choice([0, 1, 2, 3, 4])
+    n = rng.randint(1, 5)
+    for _ in range(n):
+        r = rng.random()
+        ln = 0 if r < 0.15 else (rng.randint(1, 6) if r < 0.6 else rng.randint(1, 60))
+        data = gen_input(rng, sc.alphabet, ln, stray=0.03)
+        sched = gen_sched(rng)
+        if rng.random() < 0.3:
+            # the source says "end" although data remain (a terminal after ^D)
+            sched = list(sched)
+            for _ in range(rng.randint(1, 2)):
+                sched.insert(rng.randint(0, len(sched)), 'E')
+        p.sources.append(Source(data, sched))
+    it = p.insts[0]
+    it.top.append(Op('INIT', a=rng.randint(0, 1)))
+    if sc.nconds() > 1 and rng.random() < 0.6:
+        it.top.append(Op('BEGIN', a=rng.randint(0, sc.nconds() - 1)))
+    it.top.append(Op('LEX', a=rng.choice([5000, 5000, 3, 10])))
+    # after termination
+    for _ in range(rng.randint(0, 4)):
+        k = rng.choice(['LEX', 'SET_YYIN', 'RESTART', 'LEX', 'BEGIN'])
+        if k == 'LEX':
+            it.top.append(Op('LEX', a=rng.choice([1, 5000])))
+        elif k == 'RESTART':
+            it.top.append(Op('RESTART', a=rng.choice([0, 0, 1])))
+        elif k == 'BEGIN':
+            it.top.append(Op('BEGIN', a=rng.randint(0, 7)))
+        else:
+            it.top.append(Op(k))
+    it.top.append(Op('LEX', a=5000))
+    it.top.append(Op('DESTROY'))
+    # yywrap policy
+    for _ in range(rng.randint(0, n)):
+        it.wraps.append(Op(rng.choice(['SET_YYIN', 'SET_YYIN', 'SWITCHNEW', 'STOP', 'PUSHNEW']), a=rng.choice([1, 2, 5, 16, 16384])))
+    # action scripts: a few edit ops, and scripts for the EOF actions (any
+    # ordinal may turn out to be an EOF action: ops not allowed there are skipped)
+    acts = text_ops(rng, sc, rng.choice([0.0, 0.1, 0.3]), ['INPUT', 'UNPUT', 'MORE', 'BEGIN', 'RETURN', 'LESS'])
+    for o in range(0, 120):
+        if rng.random() < 0.25:
+            k = rng.choice(['NEWFILE', 'TERMINATE', 'RETURN', 'BEGIN', 'SWITCHNEW', 'POP_BUF', 'NEWFILE'])
+            acts.append((o, Op(k, a=rng.randint(0, 7))))
+    acts.sort(key=lambda x: x[0])
+    it.acts = acts
+    return p
